@@ -115,7 +115,9 @@ def _test_sel(inp, labelled, chunked=False):
 
 def gen_pts(tier, seed):
     for spec in SPECS:
-        for pattern in (['hit'], ['hit', 'miss', 'hit', 'edge'], ['miss', 'hit'], ['hit', 'hit'], ['miss'], ['miss', 'miss'], ['edge', 'hit', 'miss']):
+        for pattern in (['hit'], ['hit', 'miss', 'hit', 'edge'], ['miss', 'hit'], ['hit', 'hit'], ['miss'], ['miss', 'miss'], ['edge', 'hit', 'miss'],
+                        # two requests a few 1e-8 apart on either side of one cell edge (different cells, or one of them outside the model)
+                        ['in-eps', 'out-eps'], ['out-eps', 'in-eps', 'hit'], ['hit', 'out-eps2', 'in-eps2']):
             for policy in ('error', 'drop'):
                 yield {'spec': spec, 'pattern': pattern, 'policy': policy}
 
@@ -135,6 +137,16 @@ def make_points(ds, pattern):
             n = present[(5 * k) % len(present)]
             a, b = list(polys[n].exterior.coords)[:2]
             pts.append(shapely.Point((a[0] + b[0]) / 2, (a[1] + b[1]) / 2))
+        elif what.endswith('eps') or what.endswith('eps2'):
+            n = present[0] if what.endswith('eps') else present[-1]
+            ring = list(polys[n].exterior.coords)
+            a, b = (ring[1], ring[2]) if what.endswith('eps') else (ring[0], ring[1])
+            m = ((a[0] + b[0]) / 2, (a[1] + b[1]) / 2)
+            cpt = polys[n].representative_point()
+            d = (cpt.x - m[0], cpt.y - m[1])
+            r = (d[0] ** 2 + d[1] ** 2) ** 0.5
+            s_ = (3e-8 if what.startswith('in') else -3e-8) / r
+            pts.append(shapely.Point(m[0] + s_ * d[0], m[1] + s_ * d[1]))
         else:
             pts.append(shapely.Point(0.0, 0.0 + k))
         k += 1
